@@ -274,6 +274,15 @@ func runRace(cfg *lib.Config, res *lib.Result, rng *lib.Rng) {
 	for i, part := range raceParts {
 		i, part := i, part
 		p := raceParams{Kind: "race", Part: part, N: n, Iters: iters, Rounds: rounds, Seed: seed}
+		if part == "loader" || part == "files" || part == "types" {
+			// the windows of the loaders are open while a name is looked up / a file instantiated for the FIRST time in a
+			// world: many short-lived worlds find an unsynchronised access far more reliably than few long ones
+			// (measured on the reverse of fix 6364f0d: 3 worlds x 150 iterations report it in 1 run of 3, 40 x 40 in 9 of 9)
+			p.Iters, p.Rounds = 40, 40
+			if cfg.Thorough() {
+				p.Iters, p.Rounds = 60, 400
+			}
+		}
 		wg.Add(1)
 		go func() {
 			defer wg.Done()
@@ -284,12 +293,19 @@ func runRace(cfg *lib.Config, res *lib.Result, rng *lib.Rng) {
 	wg.Wait()
 	for _, o := range outs {
 		if judgeRace(res, o.p, o.stdout, o.stderr, o.err, false, true) > 0 {
-			// a report that cannot be attributed for lack of a stack: once more, with a history that holds it
-			so, se, err := runRacePart(bin, o.p, filepath.Join(cfg.Out, "fs", "race-"+o.p.Part), 2*limit, 7)
-			judgeRace(res, o.p, so, se, err, false, false)
+			// a report that cannot be attributed for lack of a stack ("failed to restore the stack": the earlier access
+			// has left the detector's history): the part is run again with the largest history, up to four times; a
+			// report with both stacks is judged at once in whichever run it appears, one without a stack is reported
+			// only if the last run still cannot show it with a stack
+			for try := 1; try <= 4; try++ {
+				so, se, err := runRacePart(bin, o.p, filepath.Join(cfg.Out, "fs", "race-"+o.p.Part), 2*limit, 7)
+				if judgeRace(res, o.p, so, se, err, false, try < 4) == 0 {
+					break
+				}
+			}
 		}
 	}
-	res.Extra["race_part"] = fmt.Sprintf("race-detector build of cmd/c13race: parts %v, %d goroutines x %d iterations x %d worlds each, seed %d", raceParts, n, iters, rounds, seed)
+	res.Extra["race_part"] = fmt.Sprintf("race-detector build of cmd/c13race: parts %v, %d goroutines x %d iterations x %d worlds each (loader, files: many short worlds, see race.go), seed %d", raceParts, n, iters, rounds, seed)
 	_ = os.Remove(bin)
 }
 
